@@ -136,7 +136,7 @@ def tiny_copy_big_gradient_set(r, vb=1000):
     return svgs, {"inverse_scale": sc, "gradient": kind}
 
 
-def grouped_reuse_set(r, vb=100):
+def grouped_reuse_set(r, vb=100, single_copy_glyph=False):
     """Opacity groups whose children mix copies of an earlier outline (which the encoder places through a transform)
     with outlines of their own, overlapping, in varying order: the z-order inside the group must not depend on which
     children happen to be re-used."""
@@ -151,20 +151,30 @@ def grouped_reuse_set(r, vb=100):
     a0 = r.uniform(0, 6.28)
     donor = poly(vb * 0.25, vb * 0.3, vb * 0.15, n, a0)
     svgs = []
-    for g in range(r.randint(1, 2)):
+    exclusive = single_copy_glyph and r.random() < 0.5  # the donor outline is used by the group once and by the single-shape glyph, nowhere else
+    for g in range(1 if exclusive else r.randint(1, 2)):
         kids = []
         for k in range(r.randint(2, 4)):
             cx, cy = vb * r.uniform(0.45, 0.7), vb * r.uniform(0.45, 0.7)
-            if r.random() < 0.5:
+            if r.random() < 0.5 and not exclusive:
                 sc, ang = r.choice([0.5, 0.75, 1.0, 1.3]), r.choice([0.0, 0.0, r.uniform(-3, 3)])
                 pts = [(cx + sc * ((x - vb * 0.25) * math.cos(ang) - (y - vb * 0.3) * math.sin(ang)), cy + sc * ((x - vb * 0.25) * math.sin(ang) + (y - vb * 0.3) * math.cos(ang))) for x, y in donor]
             else:
                 pts = poly(cx, cy, vb * r.uniform(0.08, 0.2), r.choice([m for m in (3, 4, 5, 7) if m != n]), r.uniform(0, 6.28))
                 pts = [(x * (1 + 0.3 * (i % 2)), y) for i, (x, y) in enumerate(pts)]  # irregular: congruent to nothing else
             kids.append(f'<path d="{d_of(pts)}" fill="{col()}"/>')
-        grp = f'<g opacity="{r.choice([0.4, 0.5, 0.75])}">' + "".join(kids) + "</g>"
         first = f'<path d="{d_of(donor)}" fill="{col()}"/>' if (g == 0 or r.random() < 0.5) else ""
+        if first and single_copy_glyph and (exclusive or r.random() < 0.6):
+            # the donor outline itself lives inside the group, not as its last child
+            kids.insert(r.randrange(len(kids)), first)  # never the last child
+            first = ""
+        grp = f'<g opacity="{r.choice([0.4, 0.5, 0.75])}">' + "".join(kids) + "</g>"
         svgs.append(f'<svg xmlns="http://www.w3.org/2000/svg" viewBox="0 0 {vb} {vb}"><defs/>{first}{grp}</svg>')
+    if single_copy_glyph:
+        # a glyph that consists of exactly one shape: a moved / scaled copy of the donor outline
+        sc, dx, dy = r.choice([0.5, 0.8, 1.0, 1.25]), vb * r.uniform(0.1, 0.4), vb * r.uniform(0.1, 0.4)
+        pts = [(vb * 0.4 + dx * 0.5 + sc * (x - vb * 0.25), vb * 0.4 + dy * 0.5 + sc * (y - vb * 0.3)) for x, y in donor]
+        svgs.append(f'<svg xmlns="http://www.w3.org/2000/svg" viewBox="0 0 {vb} {vb}"><defs/><path d="{d_of(pts)}" fill="{col()}"/></svg>')
     return svgs
 
 
